@@ -389,3 +389,45 @@ func VerifC12_ReplicaSetOwnedPodsGetTheirOwnRevision() {
 		}
 	}
 }
+
+// VerifC12_PercentBudgetFollowsWorkloadReplicas: a batch given as a percentage is a percentage of the workload's
+// *replicas*, not of the pods that happen to be listed (old-revision pods, surge pods and terminating pods are listed
+// too).  For a one- or two-batch percentage plan and a listing with more pods than replicas, the number of pods that
+// carry (this rollout, batch b) after the pass never exceeds what batch b adds to ceil(p_b% of replicas) — and reaches
+// it whenever enough unlabelled new-revision pods exist.
+func VerifC12_PercentBudgetFollowsWorkloadReplicas() {
+	R := verifrt.Concrete(verifrt.IntRange("R", 1, verifrt.Bound("R", 3, 4)))
+	p1 := verifrt.IntRange("batch1.percent", 0, 100)
+	batches := []v1beta1.ReleaseBatch{{CanaryReplicas: intstr.FromString(strconv.Itoa(p1) + "%")}}
+	nn := verifrt.Concrete(verifrt.IntRange("pods.newRevision", 0, verifrt.Bound("pods.new", 3, 4)))
+	no := verifrt.Concrete(verifrt.IntRange("pods.oldRevision", 1, verifrt.Bound("pods.old", 3, 4)))
+	var list []*corev1.Pod
+	for i := 0; i < nn+no; i++ {
+		pod := &corev1.Pod{ObjectMeta: metav1.ObjectMeta{Namespace: "ns", Name: "pod-" + strconv.Itoa(i), Labels: map[string]string{}}}
+		if i < nn {
+			pod.Labels[apps.ControllerRevisionHashLabelKey] = c12Revision
+		} else {
+			pod.Labels[apps.ControllerRevisionHashLabelKey] = "rev-old"
+		}
+		list = append(list, pod)
+	}
+	cli := &symclient.Client{}
+	r := &realPatcher{Client: cli, logKey: klog.ObjectRef{Namespace: "ns", Name: "br"}, batches: batches}
+	ctx := &batchcontext.BatchContext{RolloutID: c12RolloutID, UpdateRevision: c12Revision, Replicas: int32(R), CurrentBatch: 0, Pods: list}
+	err := r.patchPodBatchLabel(list, ctx)
+	verifrt.Assert(err == nil, "C12.percent.noError")
+	labelled := 0
+	for _, w := range cli.Log {
+		if id, has := verifrt.JSONGet(w.Body, "metadata", "labels", v1beta1.RolloutBatchIDLabel); has {
+			verifrt.Assert(id == "1", "C12.percent.batchID")
+			labelled++
+		}
+	}
+	// ceil(p1 * R / 100) without floating point: the smallest b with 100*b >= p1*R
+	verifrt.Assert(100*labelled < p1*R+100, "C12.percent.budgetIsAShareOfTheWorkloadReplicas")
+	if 100*nn >= p1*R {
+		verifrt.Assert(100*labelled >= p1*R, "C12.percent.budgetIsUsedWhenPodsExist")
+	} else {
+		verifrt.Assert(labelled == nn, "C12.percent.everyNewPodLabelledWhenFewerThanTheBudget")
+	}
+}
